@@ -20,7 +20,7 @@ RULE = ('polynomial programs R^N -> R^M (N,M <= 5) recorded at x_r with operand 
         'compositions (intermediate values <= 1e6) compared with the forward-mode drivers, with float and integer-typed (int64/int32/int16, lists) arguments; gradient with a list of arrays for every catalogue program with several inputs; class = (driver, program kind, recording kind, evaluation at/away '
         'from the recording point); non-trivial = evaluation point != recording point')
 ASSUMPTIONS = ['exact Fraction arithmetic for polynomial programs', 'forward-mode drivers are validated independently by C09',
-               'drivers that reject a shape by an explicit ValueError are counted as unsupported (vec_hess_vec needs w.shape == x.shape)']
+               'drivers that reject a shape by an explicit ValueError are counted as unsupported']
 DRIVERS = ['gradient', 'jacobian', 'hessian', 'jac_vec', 'vec_jac', 'hess_vec', 'vec_hess', 'vec_hess_vec', 'jacobian_utpm']
 REQUIRED = ['poly:' + d for d in DRIVERS] + ['prog:' + d for d in DRIVERS if d != 'jacobian_utpm'] + ['prog:gradient-list'] + ['wide:' + d for d in ('jacobian', 'jac_vec', 'vec_jac', 'gradient', 'hessian', 'hess_vec', 'vec_hess')] + ['listrec']
 RECS = ['float', 'int', 'utpm11', 'utpm32']
@@ -283,10 +283,8 @@ def _poly(ctx, p, rng):
             mech = 'poly:%s:%s:%s' % (name, rec, where)
             try:
                 got = call()
-            except ValueError as e:
-                ctx.skip('unsupported:%s (%s)' % (name, str(e)[:40])); return True
             except Exception as e:
-                ctx.violation(mech + ':raises', dict(info, error=str(e)[:200])); return False
+                ctx.violation(mech + ':raises', dict(info, error=repr(e)[:200])); return False
             if _cmp(ctx, mech, got, ref, scale, info):
                 kept.append((name, where, got, np.array(got, copy=True)))
                 ctx.ok('poly:' + name, ('poly', name, rec, where, N, M), sample=dict(info, driver=name) if rng.random() < 0.004 else None)
@@ -320,7 +318,7 @@ def _poly(ctx, p, rng):
         Hwa = sum(abs(w[m]) * np.array([[_fl(H[m][i][j].absval(xq)) for j in range(N)] for i in range(N)]) for m in range(M))
         if not run('vec_hess', lambda: cgv.vec_hess(w.copy(), x.copy()), Hw, np.full((N, N), np.max(Hwa) + 1e-12)):
             return
-        if M == N:
+        if True:          # (w has M entries, x and v have N)
             if not run('vec_hess_vec', lambda: cgv.vec_hess_vec(w.copy(), x.copy(), v.copy()), Hw @ v, np.full(N, (np.max(Hwa) + 1e-12) * (np.sum(np.abs(v)) + 1e-12))):
                 return
         # jacobian with a Taylor-polynomial argument: expansion of every Jacobian entry along the curve
@@ -453,7 +451,7 @@ def _prog(ctx, p, rng):
             ('vec_jac', lambda: cgv.vec_jac(np.eye(m)[m - 1], X_()), Jf[m - 1], js),
             ('jac_vec', lambda: cgv.jac_vec(X_(), v2.copy()), Jf @ v2, js * np.sum(np.abs(v2))),
         ]
-        if m == n:
+        if True:          # (w has m entries, x and v have n)
             calls.append(('vec_hess_vec', lambda: cgv.vec_hess_vec(W_(), X_(), V_()), Hw @ v, hw * np.sum(np.abs(v))))
         for dname, call, ref, sc in calls:
             mech = 'prog:%s:%s:%s' % (dname, name, where)
@@ -461,7 +459,7 @@ def _prog(ctx, p, rng):
                 got = call()
             except Exception as e:
                 from .c03 import _refusal
-                if isinstance(e, ValueError) and 'shape' in str(e) or _refusal(e):
+                if _refusal(e):
                     ctx.skip('unsupported:%s:%s' % (dname, name)); continue
                 ctx.violation(mech + ':raises', dict(info, driver=dname, error=str(e)[-250:])); return
             ref = np.asarray(ref, dtype=float)
